@@ -24,8 +24,20 @@ def make_gen(tag, widths_hi=70):
         rng = rs.get('design')
         k = rng.choice(kinds)
         pool = Pool(rng, max_inputs=0)
-        pool.pick = lambda w: pool.new_input(w)
-        pool.any = lambda lo=1, hi=None: pool.new_input(rand_width(rng, lo, min(hi or widths_hi, widths_hi)))
+        def pick(w):
+            # one wire may feed several ports of a block (e.g. {s, s, s, a} sign extension by concatenation)
+            c = [x for x in pool.sigs if x[1] == w]
+            if c and rng.random() < 0.2:
+                return rng.choice(c)
+            return pool.new_input(w)
+        pool.pick = pick
+        def any_(lo=1, hi=None):
+            hi = min(hi or widths_hi, widths_hi)
+            c = [x for x in pool.sigs if lo <= x[1] <= hi]
+            if c and rng.random() < 0.2:
+                return rng.choice(c)
+            return pool.new_input(rand_width(rng, lo, hi))
+        pool.any = any_
         pool.nonzero = lambda ref, w: ref
         params, ins, ows = k.plan(rng, pool)
         nz = [1] if 'div' in k.tags else []          # divisor: never zero, never registered
@@ -59,8 +71,11 @@ def make_gen(tag, widths_hi=70):
         for _ in range(ncyc):
             vec = netlist.gen_vector(sr, d['inputs'], prev)
             for j in d['nonzero_inputs']:
-                if vec[j] == 0:
+                # a zero divisor now and then: that cycle is unspecified and not compared, the following ones are
+                if vec[j] == 0 and sr.random() < 0.8:
                     vec[j] = sr.choice([1, (1 << d['inputs'][j]['w']) - 1])
+                elif sr.random() < 0.04:
+                    vec[j] = 0
             prev = vec
             steps.append({'vec': vec, 'faults': [f for f in ('resort', 'sim_restart', 'extra_settle') if fr.random() < 0.06]})
         return {'design': d, 'order': order, 'perm': rs.sub('perm') if fr.random() < 0.7 else None, 'steps': steps}
@@ -84,7 +99,7 @@ def run(scn, log, st):
         ref.set_inputs(scn['steps'][0]['vec'])
     ref.settle()
     where = 'after simulator creation'
-    netlist.compare(b, ref.vals, 0, where, sigprefix='fn')
+    netlist.compare(b, ref.vals, 0, where, sigprefix='fn', use_poison=False)
     outs_seen = set()
     for si, step in enumerate(scn['steps'], 1):
         for f in step['faults']:
@@ -106,7 +121,7 @@ def run(scn, log, st):
         ref.edge()
         st.cycles += 1
         where = 'after cycle %d' % si
-        netlist.compare(b, ref.vals, si, where, sigprefix='fn')
+        netlist.compare(b, ref.vals, si, where, sigprefix='fn', use_poison=False)
         bad = seams.topo_order_violations(sim)
         if bad:
             raise Violation('order', 'topo-order', si, '%s: %s before its driver %s' % (where, bad[0][1], bad[0][0]))
